@@ -85,3 +85,21 @@ func (v *VerifNet) SubscribeTopics(pk []byte) ([]string, error) {
 	err := v.n.Subscribe(pk)
 	return v.ctrl.Subscribed, err
 }
+
+// ResetSubscriptions forgets what was subscribed so far (fresh validator table), for drivers that reach Subscribe
+// through other real code (validator.Validator.Start).
+func (v *VerifNet) ResetSubscriptions() {
+	v.ctrl.Subscribed = nil
+	v.n.activeValidators = hashmap.New[string, validatorStatus]()
+}
+
+// Subscribed returns the topic names handed to the topics controller since the last reset.
+func (v *VerifNet) Subscribed() []string { return v.ctrl.Subscribed }
+
+// Net returns the real network object (it implements the qbft Network and the p2p Subscriber interfaces).
+func (v *VerifNet) Net() interface {
+	Broadcast(msg *spectypes.SSVMessage) error
+	Subscribe(pk spectypes.ValidatorPK) error
+} {
+	return v.n
+}
